@@ -175,16 +175,22 @@ func knownCLSyntaxC24(cl []string) bool {
 		v = v[:len(v)-1]
 	}
 	plain := len(v) == len(trimOWSC24([]byte(cl[0])))
-	signed := false
+	signed, minus := false, false
 	if len(v) > 0 && (v[0] == '+' || v[0] == '-') {
-		signed = true
+		signed, minus = true, v[0] == '-'
 		v = v[1:]
 	}
-	digits := len(v) > 0
+	digits, zero := len(v) > 0, true
 	for _, c := range v {
 		if c < '0' || c > '9' {
 			digits = false
 		}
+		if c != '0' {
+			zero = false
+		}
+	}
+	if minus && !zero {
+		return false // negative numbers are refused by bfe; only "-0" slips through
 	}
 	return digits && (signed || !plain)
 }
